@@ -373,12 +373,12 @@ Section FileProofs.
 
   (** validation that reports nothing has seen exactly the signed build *)
   Theorem never_false_valid_lemma ds ls fs ws :
-    validate bs maxWound hash heqb ds ls fs = Some ws -> reported ws = [] ->
+    validate_core bs maxWound hash heqb ds ls fs = Some ws -> reported ws = [] ->
     Forall (fun o => o = ODir) ds /\
     Forall (fun p => snd p = OLink (fst p)) ls /\
     Forall (fun p => snd p = OFile (fst p)) fs.
   Proof.
-    unfold validate. intros Hv Hr.
+    unfold validate_core. intros Hv Hr.
     destruct (dirs_pass 0 ds) as [wd|] eqn:Ed; [|discriminate].
     destruct (links_pass 0 ls) as [wl|] eqn:El; [|discriminate].
     inversion Hv; subst ws. rewrite !reported_app in Hr.
@@ -389,12 +389,12 @@ Section FileProofs.
 
   (** fail-fast validation answers Ok only for a directory that matches *)
   Theorem failfast_ok_matches ds ls fs :
-    failfast bs maxWound hash heqb ds ls fs = ROk ->
+    failfast_core bs maxWound hash heqb ds ls fs = ROk ->
     Forall (fun o => o = ODir) ds /\
     Forall (fun p => snd p = OLink (fst p)) ls /\
     Forall (fun p => snd p = OFile (fst p)) fs.
   Proof.
-    unfold failfast. destruct (validate bs maxWound hash heqb ds ls fs) as [ws|] eqn:Ev; [|discriminate].
+    unfold failfast_core. destruct (validate_core bs maxWound hash heqb ds ls fs) as [ws|] eqn:Ev; [|discriminate].
     destruct (reported ws) eqn:Er; [|discriminate]. intros _. apply (never_false_valid_lemma ds ls fs ws); assumption.
   Qed.
 
@@ -479,7 +479,7 @@ Section FileProofs.
 
   (** every marker sent names an existing entry of its kind and has 0 <= start <= end *)
   Theorem wounds_wellformed_lemma ds ls fs ws w :
-    validate bs maxWound hash heqb ds ls fs = Some ws -> In w ws ->
+    validate_core bs maxWound hash heqb ds ls fs = Some ws -> In w ws ->
     wellformed w /\
     match wk w with
     | WDir => 0 <= widx w < Z.of_nat (length ds)
@@ -487,7 +487,7 @@ Section FileProofs.
     | WFile | WClosed => 0 <= widx w < Z.of_nat (length fs)
     end.
   Proof. clear hash_inj.
-    unfold validate. intros Hv Hin.
+    unfold validate_core. intros Hv Hin.
     destruct (dirs_pass 0 ds) as [wd|] eqn:Ed; [|discriminate].
     destruct (links_pass 0 ls) as [wl|] eqn:El; [|discriminate].
     inversion Hv; subst ws. apply in_app_or in Hin. destruct Hin as [Hin|Hin].
@@ -553,12 +553,12 @@ Section FileProofs.
   (** the property's central clause: every deviating offset below the signed length of a
       regular file lies inside a reported FILE wound naming that file *)
   Theorem deviation_located_lemma ds ls fs ws k signed content (o : nat) :
-    validate bs maxWound hash heqb ds ls fs = Some ws ->
+    validate_core bs maxWound hash heqb ds ls fs = Some ws ->
     nth_error fs k = Some (signed, OFile content) ->
     (o < length signed)%nat -> nth_error content o <> nth_error signed o ->
     exists w, In w (reported ws) /\ in_wound (Z.of_nat k) (Z.of_nat o) w.
   Proof.
-    unfold validate. intros Hv Hn Ho Hd.
+    unfold validate_core. intros Hv Hn Ho Hd.
     destruct (dirs_pass 0 ds) as [wd|]; [|discriminate]. destruct (links_pass 0 ls) as [wl|]; [|discriminate].
     inversion Hv; subst ws.
     destruct (file_wounds_cover (Z.of_nat k) signed content o Ho Hd) as [w [Hin Hw]].
@@ -569,12 +569,12 @@ Section FileProofs.
 
   (** a file that is shorter or longer than signed, missing, or of another kind gets a wound *)
   Theorem file_mismatch_wounded_lemma ds ls fs ws k signed o :
-    validate bs maxWound hash heqb ds ls fs = Some ws ->
+    validate_core bs maxWound hash heqb ds ls fs = Some ws ->
     nth_error fs k = Some (signed, o) ->
     (forall c, o = OFile c -> length c <> length signed) ->
     exists w, In w (reported ws) /\ wk w = WFile /\ widx w = Z.of_nat k.
   Proof. clear hash_inj. try clear bs_pos.
-    unfold validate. intros Hv Hn Ho.
+    unfold validate_core. intros Hv Hn Ho.
     destruct (dirs_pass 0 ds) as [wd|]; [|discriminate]. destruct (links_pass 0 ls) as [wl|]; [|discriminate].
     inversion Hv; subst ws.
     assert (Hex : exists w, In w (reported (file_wounds bs maxWound hash heqb (Z.of_nat k) signed o)) /\ wk w = WFile /\ widx w = Z.of_nat k).
@@ -586,25 +586,184 @@ Section FileProofs.
   Qed.
 
   Theorem dir_mismatch_wounded_lemma ds ls fs ws k o :
-    validate bs maxWound hash heqb ds ls fs = Some ws ->
+    validate_core bs maxWound hash heqb ds ls fs = Some ws ->
     nth_error ds k = Some o -> o <> ODir ->
     In (mkwound WDir (Z.of_nat k) 0 0) (reported ws).
   Proof. clear hash_inj. try clear bs_pos.
-    unfold validate. intros Hv Hn Ho.
+    unfold validate_core. intros Hv Hn Ho.
     destruct (dirs_pass 0 ds) as [wd|] eqn:Ed; [|discriminate]. destruct (links_pass 0 ls) as [wl|]; [|discriminate].
     inversion Hv; subst ws. apply in_reported. split; [|reflexivity].
     apply in_or_app. left. apply (dirs_pass_wounded ds 0 wd k o Ed Hn Ho).
   Qed.
 
   Theorem link_mismatch_wounded_lemma ds ls fs ws k want o :
-    validate bs maxWound hash heqb ds ls fs = Some ws ->
+    validate_core bs maxWound hash heqb ds ls fs = Some ws ->
     nth_error ls k = Some (want, o) -> o <> OLink want ->
     In (mkwound WSymlink (Z.of_nat k) 0 0) (reported ws).
   Proof. clear hash_inj. try clear bs_pos.
-    unfold validate. intros Hv Hn Ho.
+    unfold validate_core. intros Hv Hn Ho.
     destruct (dirs_pass 0 ds) as [wd|]; [|discriminate]. destruct (links_pass 0 ls) as [wl|] eqn:El; [|discriminate].
     inversion Hv; subst ws. apply in_reported. split; [|reflexivity].
     apply in_or_app. right. apply in_or_app. left. apply (links_pass_wounded ls 0 wl k want o El Hn Ho).
+  Qed.
+
+
+  (* ---------- wounded directories hide what is below them ---------- *)
+
+  Lemma eff_cases u o : eff u o = o \/ eff u o = OMissing.
+  Proof. destruct u; [right|left]; reflexivity. Qed.
+
+  Lemma eff_dirs_spec ds : forall flags es fl,
+    eff_dirs flags ds = (es, fl) ->
+    length es = length ds /\
+    (forall k anc o, nth_error ds k = Some (anc, o) -> exists u, nth_error es k = Some (eff u o)).
+  Proof. clear hash_inj. try clear bs_pos.
+    induction ds as [|[anc0 o0] r IH]; intros flags es fl He; cbn [eff_dirs] in He.
+    - inversion He. split; [reflexivity|]. intros k anc o Hn. destruct k; discriminate.
+    - destruct (eff_dirs (flags ++ [negb (is_dir (eff (under flags anc0) o0))]) r) as [es' fl'] eqn:Er.
+      inversion He; subst es fl. destruct (IH _ _ _ Er) as [Hl Hn]. split; [cbn; lia|].
+      intros k anc o Hk. destruct k as [|k]; cbn [nth_error] in *.
+      + inversion Hk; subst. eexists. reflexivity.
+      + apply (Hn k anc o Hk).
+  Qed.
+
+  Lemma whole_wound_located ds ls fs ws k signed o0 (o : nat) :
+    validate_core bs maxWound hash heqb ds ls fs = Some ws ->
+    nth_error fs k = Some (signed, o0) -> (forall c, o0 <> OFile c) ->
+    (o < length signed)%nat ->
+    exists w, In w (reported ws) /\ in_wound (Z.of_nat k) (Z.of_nat o) w.
+  Proof. clear hash_inj. try clear bs_pos.
+    unfold validate_core. intros Hv Hn Hnf Ho.
+    destruct (dirs_pass 0 ds) as [wd|]; [|discriminate]. destruct (links_pass 0 ls) as [wl|]; [|discriminate].
+    inversion Hv; subst ws.
+    exists (mkwound WFile (Z.of_nat k) 0 (Z.of_nat (length signed))). split.
+    - apply in_reported. split; [|reflexivity]. apply in_or_app. right. apply in_or_app. right.
+      apply (files_pass_contains fs 0 k signed o0 _ Hn).
+      destruct o0; try (left; reflexivity). exfalso. apply (Hnf content). reflexivity.
+    - unfold in_wound. cbn [wk widx wstart wend]. repeat split; lia.
+  Qed.
+
+  Notation validate' := (validate bs maxWound hash heqb).
+
+  Lemma validate_unfold ds ls fs :
+    validate' ds ls fs =
+    validate_core bs maxWound hash heqb (fst (eff_dirs [] ds))
+      (map (fun x => let '(anc, want, o) := x in (want, eff (under (snd (eff_dirs [] ds)) anc) o)) ls)
+      (map (fun x => let '(anc, signed, o) := x in (signed, eff (under (snd (eff_dirs [] ds)) anc) o)) fs).
+  Proof. clear hash_inj. try clear bs_pos. unfold validate. destruct (eff_dirs [] ds). reflexivity. Qed.
+
+  Theorem deviation_located_full ds ls fs ws k anc signed content (o : nat) :
+    validate' ds ls fs = Some ws ->
+    nth_error fs k = Some (anc, signed, OFile content) ->
+    (o < length signed)%nat -> nth_error content o <> nth_error signed o ->
+    exists w, In w (reported ws) /\ in_wound (Z.of_nat k) (Z.of_nat o) w.
+  Proof.
+    rewrite validate_unfold. intros Hv Hn Ho Hd.
+    set (fl := snd (eff_dirs [] ds)) in *.
+    assert (Hm : nth_error (map (fun x : list nat * list N * obs => let '(anc, signed, o) := x in (signed, eff (under fl anc) o)) fs) k
+                 = Some (signed, eff (under fl anc) (OFile content))).
+    { rewrite nth_error_map, Hn. reflexivity. }
+    destruct (under fl anc); cbn [eff] in Hm.
+    - eapply whole_wound_located; [exact Hv|exact Hm|intros c X; discriminate|assumption].
+    - eapply deviation_located_lemma; [exact Hv|exact Hm|assumption|assumption].
+  Qed.
+
+  Theorem file_mismatch_wounded_full ds ls fs ws k anc signed o :
+    validate' ds ls fs = Some ws ->
+    nth_error fs k = Some (anc, signed, o) ->
+    (forall c, o = OFile c -> length c <> length signed) ->
+    exists w, In w (reported ws) /\ wk w = WFile /\ widx w = Z.of_nat k.
+  Proof. clear hash_inj. try clear bs_pos.
+    rewrite validate_unfold. intros Hv Hn Ho.
+    set (fl := snd (eff_dirs [] ds)) in *.
+    assert (Hm : nth_error (map (fun x : list nat * list N * obs => let '(anc, signed, o) := x in (signed, eff (under fl anc) o)) fs) k
+                 = Some (signed, eff (under fl anc) o)).
+    { rewrite nth_error_map, Hn. reflexivity. }
+    eapply file_mismatch_wounded_lemma; [exact Hv|exact Hm|].
+    intros c Hc. destruct (under fl anc); cbn [eff] in Hc; [discriminate|]. apply Ho. assumption.
+  Qed.
+
+  Theorem dir_mismatch_wounded_full ds ls fs ws k anc o :
+    validate' ds ls fs = Some ws ->
+    nth_error ds k = Some (anc, o) -> o <> ODir ->
+    In (mkwound WDir (Z.of_nat k) 0 0) (reported ws).
+  Proof. clear hash_inj. try clear bs_pos.
+    rewrite validate_unfold. intros Hv Hn Ho.
+    destruct (eff_dirs [] ds) as [es fl] eqn:Ee. cbn [fst snd] in Hv.
+    destruct (eff_dirs_spec ds [] es fl Ee) as [_ Hnth]. destruct (Hnth k anc o Hn) as [u Hu].
+    eapply dir_mismatch_wounded_lemma; [exact Hv|exact Hu|]. destruct u; cbn [eff]; [discriminate|assumption].
+  Qed.
+
+  Theorem link_mismatch_wounded_full ds ls fs ws k anc want o :
+    validate' ds ls fs = Some ws ->
+    nth_error ls k = Some (anc, want, o) -> o <> OLink want ->
+    In (mkwound WSymlink (Z.of_nat k) 0 0) (reported ws).
+  Proof. clear hash_inj. try clear bs_pos.
+    rewrite validate_unfold. intros Hv Hn Ho.
+    set (fl := snd (eff_dirs [] ds)) in *.
+    assert (Hm : nth_error (map (fun x : list nat * N * obs => let '(anc, want, o) := x in (want, eff (under fl anc) o)) ls) k
+                 = Some (want, eff (under fl anc) o)).
+    { rewrite nth_error_map, Hn. reflexivity. }
+    eapply link_mismatch_wounded_lemma; [exact Hv|exact Hm|]. destruct (under fl anc); cbn [eff]; [discriminate|assumption].
+  Qed.
+
+  Lemma eff_dirs_all_dir ds : forall flags es fl,
+    eff_dirs flags ds = (es, fl) -> Forall (fun o => o = ODir) es -> Forall (fun p => snd p = ODir) ds.
+  Proof. clear hash_inj. try clear bs_pos.
+    induction ds as [|[anc0 o0] r IH]; intros flags es fl He Hall; [constructor|].
+    cbn [eff_dirs] in He.
+    destruct (eff_dirs (flags ++ [negb (is_dir (eff (under flags anc0) o0))]) r) as [es' fl'] eqn:Er.
+    inversion He; subst es fl. inversion Hall as [|x l Hx Hl]; subst.
+    constructor; [|apply (IH _ _ _ Er Hl)].
+    cbn [snd]. destruct (under flags anc0); cbn [eff] in Hx; [discriminate|assumption].
+  Qed.
+
+  Theorem never_false_valid_full ds ls fs ws :
+    validate' ds ls fs = Some ws -> reported ws = [] ->
+    Forall (fun p => snd p = ODir) ds /\
+    Forall (fun x => let '(_, want, o) := x in o = OLink want) ls /\
+    Forall (fun x => let '(_, signed, o) := x in o = OFile signed) fs.
+  Proof.
+    rewrite validate_unfold. intros Hv Hr.
+    destruct (eff_dirs [] ds) as [es fl] eqn:Ee. cbn [fst snd] in Hv.
+    destruct (never_false_valid_lemma _ _ _ _ Hv Hr) as [Hd [Hl Hf]].
+    split; [apply (eff_dirs_all_dir ds [] es fl Ee Hd)|]. split.
+    - apply Forall_forall. intros [[anc want] o] Hin. rewrite Forall_forall in Hl.
+      specialize (Hl (want, eff (under fl anc) o)). cbn [fst snd] in Hl.
+      assert (Hi : In (want, eff (under fl anc) o) (map (fun x : list nat * N * obs => let '(anc, want, o) := x in (want, eff (under fl anc) o)) ls)).
+      { apply in_map_iff. exists (anc, want, o). split; [reflexivity|assumption]. }
+      specialize (Hl Hi). destruct (under fl anc); cbn [eff] in Hl; [discriminate|assumption].
+    - apply Forall_forall. intros [[anc signed] o] Hin. rewrite Forall_forall in Hf.
+      specialize (Hf (signed, eff (under fl anc) o)). cbn [fst snd] in Hf.
+      assert (Hi : In (signed, eff (under fl anc) o) (map (fun x : list nat * list N * obs => let '(anc, signed, o) := x in (signed, eff (under fl anc) o)) fs)).
+      { apply in_map_iff. exists (anc, signed, o). split; [reflexivity|assumption]. }
+      specialize (Hf Hi). destruct (under fl anc); cbn [eff] in Hf; [discriminate|assumption].
+  Qed.
+
+  Theorem failfast_ok_matches_full ds ls fs :
+    failfast bs maxWound hash heqb ds ls fs = ROk ->
+    Forall (fun p => snd p = ODir) ds /\
+    Forall (fun x => let '(_, want, o) := x in o = OLink want) ls /\
+    Forall (fun x => let '(_, signed, o) := x in o = OFile signed) fs.
+  Proof.
+    unfold failfast. destruct (validate' ds ls fs) as [ws|] eqn:Ev; [|discriminate].
+    destruct (reported ws) eqn:Er; [|discriminate]. intros _. apply (never_false_valid_full ds ls fs ws); assumption.
+  Qed.
+
+  Theorem wounds_wellformed_full ds ls fs ws w :
+    validate' ds ls fs = Some ws -> In w ws ->
+    wellformed w /\
+    match wk w with
+    | WDir => 0 <= widx w < Z.of_nat (length ds)
+    | WSymlink => 0 <= widx w < Z.of_nat (length ls)
+    | WFile | WClosed => 0 <= widx w < Z.of_nat (length fs)
+    end.
+  Proof. clear hash_inj.
+    rewrite validate_unfold. intros Hv Hin.
+    destruct (eff_dirs [] ds) as [es fl] eqn:Ee. cbn [fst snd] in Hv.
+    destruct (eff_dirs_spec ds [] es fl Ee) as [Hlen _].
+    pose proof (wounds_wellformed_lemma _ _ _ _ w Hv Hin) as [Hw Hk]. split; [assumption|].
+    rewrite !map_length, Hlen in Hk. exact Hk.
   Qed.
 
 End FileProofs.
